@@ -99,6 +99,10 @@ def captures(terms, x):
         if z3.is_quantifier(t) or not z3.is_app(t):
             return False
         if t.num_args() == 0:
+            if z3.is_bv_value(t):
+                # type-set constants (BOOL, NUMBER, NONE, ...) are parameters like any captured value: a fold over
+                # `uses at type t` is one function whether t is a literal at this site or a symbol
+                return False
             return t.decl().kind() != z3.Z3_OP_UNINTERPRETED
         # constructor applications / interpreted operators over literals only (e.g. an operator definition record)
         return t.decl().kind() != z3.Z3_OP_UNINTERPRETED and t.decl().kind() != z3.Z3_OP_RECURSIVE \
